@@ -25,6 +25,7 @@ DEFAULT_PROFILE = {
     "p_always": 0.10,
     "p_after": 0.0,
     "delays": (10, 20, 30, 50, 100),
+    "p_zero_delay": 0.0,
     "p_after_two": 0.15,
     "p_named_delay": 0.2,
     "p_invoke": 0.0,
@@ -498,6 +499,8 @@ class MachineGen:
         used = set()
         for _ in range(k):
             d = rng.choice(p["delays"])
+            if p.get("p_zero_delay") and rng.random() < p["p_zero_delay"]:
+                d = 0   # due immediately (a named / computed delay may legitimately resolve to 0)
             if d in used:
                 continue
             used.add(d)
@@ -512,8 +515,17 @@ class MachineGen:
             lst = []
             for j in range(ncand):
                 tgt, re = self.pick_target(n, nodes, root)
+                if d == 0:
+                    # a zero delay must leave the state, or it would fire in a tight loop for ever
+                    outs = [x for x in nodes if x.kind != "history" and x is not n and not x.id.startswith(n.id + ".")
+                            and not n.id.startswith(x.id + ".") and x is not root]
+                    if not outs:
+                        continue
+                    tgt, re = rng.choice(outs), False
                 g = self.guard_ctx() if (ncand == 2 and j == 0) or rng.random() < 0.15 else None
                 lst.append(self.tcfg(n, tgt, re, g))
+            if not lst:
+                continue
             after[key] = lst if ncand > 1 else lst[0]
             self.info["after"].append({"state": n.id, "key": key, "ms": d})
         n.cfg["after"] = after
